@@ -83,12 +83,12 @@ GTF_UPDATES = [("G1", "merge"), ("G2", "merge"), ("G3", "merge"), ("G3", "create
                ("G4", "merge"), ("G4", "replace"), ("G5", "merge")]
 GTF_EVENTS = ["U:%s:%s" % u for u in GTF_UPDATES] + ["D:str:exon_1", "D:feat:T1", "D:list:CDS_1,exon_2"]
 GFF_EVENTS = ["U:%s:%s" % u for u in UPDATES] + ["D:str:e1", "D:feat:m1", "D:list:p1,exon_1", "D:str:g1", "D:gen:e1,p1", "D:children:m1",
-                                                  "A:plain", "A:rewrite", "A:unknown"]
+                                                  "A:plain", "A:rewrite", "A:mark", "A:unknown"]
 EVENTS = list(INITS) + GFF_EVENTS + GTF_EVENTS + ["R", "P"]          # R = reopen, P = set_pragmas (changes nothing in the content)
 
 
-# quick leaves out four update events whose strategy/bundle combination has a close relative in the alphabet
-QUICK_SKIP = {"U:B4:warning", "U:B1:create_unique", "U:G3:warning", "U:G3:create_unique"}
+# quick leaves out events that have a close relative in the alphabet (A:plain is subsumed by A:mark)
+QUICK_SKIP = {"U:B4:warning", "U:B1:create_unique", "U:G3:warning", "U:G3:create_unique", "A:plain", "U:B6:replace"}
 
 
 def depth_of(tier):
@@ -136,9 +136,16 @@ def enabled(ev, model):
         return ev.split(":")[2] in model.feats
     if ev == "A:plain":
         return "g1" in model.feats and "p1" in model.feats and ("g1", "p1", 3) not in model.rels
+    if ev == "A:mark":
+        return "m1" in model.feats and "e1" in model.feats and ("m1", "e1", 7) not in model.rels
     if ev == "A:rewrite":
         return "e1" in model.feats and "exon_1" in model.feats and ("e1", "exon_1", 1) not in model.rels
     return True
+
+
+def _mark_parent(parent, child):
+    parent.attributes["marked"] = ["by-" + child.id]
+    return parent
 
 
 def _set_parent(parent, child):
@@ -167,6 +174,8 @@ def apply_real(ev, db, path, wdir):
             db.delete(kind[2].split(","), make_backup=True)
     elif ev == "A:plain":
         db.add_relation("g1", "p1", 3)
+    elif ev == "A:mark":
+        db.add_relation("m1", "e1", 7, parent_func=_mark_parent)              # the callback rewrites the PARENT
     elif ev == "A:rewrite":
         db.add_relation("e1", "exon_1", 1, child_func=_set_parent)
     elif ev == "A:unknown":
@@ -194,6 +203,9 @@ def apply_model(ev, model):
         model.delete(kind[2].split(","))
     elif ev == "A:plain":
         model.add_relation("g1", "p1", 3)
+    elif ev == "A:mark":
+        model.add_relation("m1", "e1", 7)
+        model.feats["m1"]["attrs"]["marked"] = {"by-e1"}
     elif ev == "A:rewrite":
         model.add_relation("e1", "exon_1", 1, set_parent_attr=True)
 
